@@ -57,7 +57,6 @@ type StructAttCase struct {
 	Stats  struct{ Attach, Remove, Copies, Storage, TwoAtts, Fails int }
 }
 
-
 // GenStructAttCase draws a sequence: attach (copying the base), access, mutation of base
 // and attachment, copies (variables, arrays, function calls, storage round trips across
 // transactions), remove, forEachAttachment, entitled access, duplicate attach.
